@@ -123,8 +123,9 @@ var props = map[string]propSpec{
 	}, Assumptions: with("TLS handshake contract model (DESIGN 3.5)", "client state is a one-field struct with an arbitrary string value (structpb reflection helpers are not encoded)"),
 		Explanation: "trimmed protocol list on 3 arbitrary ALPN strings; end to end through the node's own ClientConfigs and the listener's Accept: reported list = offered list minus the preference entry (any position), returned as a copy; client state equal to what the node supplied and delivered only for a genuine signature"},
 	"C17": {Harnesses: []harnessSpec{
-		{Pkg: "net", Fn: "VerifC17Routing", Validate: 0},
-	}, Assumptions: with(), Explanation: "SplitListener routing under the coroutine scheduler"},
+		{Pkg: "net", Fn: "VerifC17Routing", Validate: 16, MustReach: []string{"delivered-to-special", "delivered-to-auth", "delivered-to-unauth", "closed-no-listener", "end"}, Panics: true, ShardBits: 4},
+	}, Assumptions: with("one schedule per path: goroutines are sequentialised coroutines with rendezvous channels (no claim about interleavings, see C18)", "the application's base TLS configuration offers no library-prefixed protocol names", "a mis-routed connection shows up as a deadlock of the harness (it accepts only from the designated sub-listener)"),
+		Explanation: "real SplitListener.Start/GetListener and MultiplexingListener over the real InterceptingListener.Accept: every subset of {specific, non-specific, unauthenticated} sub-listeners, native-connection setting, an authenticated node or a plain TLS client offering an arbitrary extra protocol name (incl. the reserved ones), then base-listener closure"},
 	"C19": {Harnesses: []harnessSpec{
 		{Pkg: "storage/inmem", Fn: "VerifC19InmemStep", Validate: 16},
 	}, Assumptions: with("sequential histories only; ids are path-safe"), Explanation: "inductive step of the in-memory back end against a reference map"},
